@@ -76,6 +76,28 @@ def run_blocking(case, text, op, variables, executor="blocking", **kw):
     if executor == "blocking":
         return py_gql.graphql_blocking(case.schema, text, variables=variables, operation_name=op.name,
                                        root=root, **kw)
+    if executor == "threadpool":
+        # a real pool; resolvers written earlier in the document take longer, so that completion order and
+        # document order disagree as often as possible
+        import time
+        from py_gql.execution.runtime import ThreadPoolRuntime
+
+        base_finish = case.binding._finish
+        started = [0]
+
+        def slow_finish(obj, f, kwargs, info):
+            started[0] += 1
+            time.sleep(max(0.0, 0.004 - 0.0005 * started[0]))
+            return base_finish(obj, f, kwargs, info)
+
+        rt = ThreadPoolRuntime(max_workers=4)
+        case.binding._finish = slow_finish
+        try:
+            return py_gql.process_graphql_query(case.schema, text, variables=variables, operation_name=op.name, root=root,
+                                                executor_cls=Executor, runtime=rt, **kw).result(timeout=120)
+        finally:
+            case.binding._finish = base_finish
+            rt._inner.shutdown(wait=True)
     return py_gql.process_graphql_query(case.schema, text, variables=variables, operation_name=op.name,
                                         root=root, executor_cls=Executor, **kw)
 
